@@ -42,8 +42,10 @@ PtrConsts == {4096, 4100}
 Imms == {0, 1, -1, 127, 128, 4660, 305419896, -559038737}
 SmallImms == {1, 4, 8, 127}
 AluOps == {"add", "sub", "xor", "and", "or", "cmp", "test", "adc"}
-MemForms == {"mov_mr", "mov_rm", "mov_mi", "alu_mr", "alu_rm", "alu_mi", "push_m", "pop_m", "un_m", "movx", "xchg", "lea"}
-RegForms == {"mov_ri", "mov_rr", "alu_rr", "alu_ri", "push_r", "push_i", "pop_r", "frame", "flag", "str", "rep_setup", "rep"}
+MemForms == {"mov_mr", "mov_rm", "mov_mi", "alu_mr", "alu_rm", "alu_mi", "push_m", "pop_m", "un_m", "movx", "xchg", "lea", "setcc_m"}
+RegForms == {"mov_ri", "mov_rr", "alu_rr", "alu_ri", "push_r", "push_i", "pop_r", "frame", "flag", "str", "rep_setup", "rep", "setcc_r", "cmov_rr", "const_setcc"}
+Hi8 == [eax |-> "ah", ebx |-> "bh", ecx |-> "ch", edx |-> "dh"]
+CondNames == {"z", "l", "a", "b", "ns"}
 
 StackDisps == Disps \cup {-8, -3, -2, 5, 8}      \* more variants for esp/ebp: about half of the memory operands
 Mems(p) == {M(b, d, w) : b \in (BaseRegs \cap p) \cup {"abs"}, d \in Disps, w \in Widths}
@@ -73,6 +75,15 @@ ConcreteScas ==
                Ins("mov", R("ecx", 32), I(n)), Ins(rk \o " " \o mn, None, None)>>,
      ptr |-> ((ptr \cup {"edi"}) \ {"ecx", "eax"}), dfk |-> dfk, ecxn |-> -1]
       : rk \in {"repe", "repne"}, mn \in {"scasb", "scasd"}, v \in CmpPairs, n \in {2, 3}}
+\* the count of a rep is first copied somewhere else (register, stack, memory): the copy must keep the value it had
+CountCopies == {[i |-> Ins("mov", R("edx", 32), R("ecx", 32)), kill |-> {"edx"}], [i |-> Ins("mov", R("ebx", 32), R("ecx", 32)), kill |-> {"ebx"}],
+                [i |-> Ins("mov", M("abs", 0, 32), R("ecx", 32)), kill |-> {}]}
+               \cup (IF "esp" \in ptr THEN {[i |-> Ins("push", R("ecx", 32), None), kill |-> {}]} ELSE {})
+SharedCount ==
+   UNION {{[seq |-> <<Ins("mov", R("ecx", 32), I(n)), cp.i, Ins(rk \o " " \o mn, None, None)>>,
+            ptr |-> (StrPtr(mn) \ {"ecx"}) \ cp.kill, dfk |-> dfk, ecxn |-> -1]
+             : rk \in RepKinds(mn), n \in 1..4, cp \in CountCopies}
+          : mn \in {s \in StrOps : dfk /\ StrNeeds(s) \subseteq ptr /\ s \notin {"cmpsb", "cmpsd", "scasb", "scasd"}}}
 Complete(f, m) ==
    CASE f = "mov_mr" -> {Eff(Ins("mov", m, SubReg(r, m.w)), ptr, dfk, ecxn) : r \in Data32}
      [] f = "mov_rm" -> {Eff(Ins("mov", SubReg(r, m.w), m), Kill(r), dfk, EcxAfter(r)) : r \in Data32}
@@ -86,6 +97,14 @@ Complete(f, m) ==
      [] f = "un_m" -> {Eff(Ins(o, m, None), ptr, dfk, ecxn) : o \in {"inc", "dec", "neg", "not"}}
      [] f = "movx" -> IF m.w = 32 THEN {} ELSE {Eff(Ins(o, R(r, 32), m), Kill(r), dfk, EcxAfter(r)) : o \in {"movzx", "movsx"}, r \in Data32}
      [] f = "xchg" -> IF m.w # 32 THEN {} ELSE {Eff(Ins("xchg", R(r, 32), m), Kill(r), dfk, EcxAfter(r)) : r \in Data32}
+     [] f = "setcc_m" -> IF m.w # 8 THEN {} ELSE {Eff(Ins("set" \o c, m, None), ptr, dfk, ecxn) : c \in CondNames}
+     \* a condition written into a low / high byte or moved under a condition: the rest of the register keeps its (often constant) value
+     [] f = "setcc_r" -> {Eff(Ins("set" \o c, R(IF hi THEN Hi8[r] ELSE Sub8[r], 8), None), Kill(r), dfk, EcxAfter(r)) : c \in CondNames, r \in Data32, hi \in BOOLEAN}
+     [] f = "const_setcc" -> {Eff2(Ins("mov", R(r, 32), I(v)), Ins("set" \o c, R(IF hi THEN Hi8[r] ELSE Sub8[r], 8), None), Kill(r), dfk, EcxAfter(r))
+                                : c \in CondNames, r \in Data32, hi \in BOOLEAN, v \in {305419896, -559038737, 4660, -1}}
+                             \cup {Eff2(Ins("mov", R(r, 32), I(v)), Ins("cmov" \o c, SubReg(r, 16), SubReg(r2, 16)), Kill(r), dfk, EcxAfter(r))
+                                : c \in CondNames, r \in Data32, r2 \in Data32, v \in {305419896, -559038737}}
+     [] f = "cmov_rr" -> {Eff(Ins("cmov" \o c, SubReg(r, w), SubReg(r2, w)), Kill(r), dfk, EcxAfter(r)) : c \in CondNames, r \in Data32, r2 \in Data32, w \in {16, 32}}
      [] f = "lea" -> IF m.n = "abs" THEN {} ELSE {Eff(Ins("lea", R(r, 32), M(m.n, m.v, 32)), ptr \cup {r}, dfk, EcxAfter(r)) : r \in Gpr32}
      [] f = "mov_ri" -> {Eff(Ins("mov", R(r, 32), I(v)), IF v \in PtrConsts THEN ptr \cup {r} ELSE Kill(r), dfk,
                              IF r = "ecx" THEN -1 ELSE ecxn) : r \in Gpr32, v \in Imms \cup PtrConsts}
@@ -108,6 +127,7 @@ Complete(f, m) ==
                      : rk \in RepKinds(mn), n \in (IF ecxn >= 0 THEN {0} ELSE 0..4)}
                   : mn \in {s \in StrOps : dfk /\ StrNeeds(s) \subseteq ptr}})
           \cup (IF dfk THEN ConcreteCmps \cup ConcreteScas ELSE {})
+          \cup SharedCount
 
 \* two of three programs start by fixing the direction flag (string instructions need it concrete)
 Init == /\ ptr = All32 /\ ecxn = -1 /\ stage = 0 /\ form = "" /\ mop = None
